@@ -171,6 +171,10 @@ func expiryOp(r *relayInst, fs []string) string {
 						}()
 					}
 				}
+				if beh == "sendquiet" {
+					// one data message, then silence (no pong is due before the expiry either): the relay must not end it before E
+					c.WriteMessage(websocket.BinaryMessage, []byte("once"))
+				}
 				var closedAt int64
 				if beh == "stall" {
 					// never read: the close can only be seen by a failing write; poll with pings
